@@ -9,7 +9,7 @@ EXTENDS IpcLifeMC, Json, IOUtils
 VARIABLES hist, done
 
 Ops == {<<"Disc", c>> : c \in C} \cup {<<"Ref", c>> : c \in C} \cup {<<"Unref", c>> : c \in C}
-       \cup {<<"Send", c>> : c \in C} \cup {<<"IterFirst">>, <<"IterNext">>, <<"Rate">>}
+       \cup {<<"Send", c>> : c \in C} \cup {<<"IterFirst">>, <<"IterNext">>, <<"Rate">>, <<"SvcRef">>, <<"SvcUnref">>}
 OpAct(op, base) ==
   CASE op[1] = "Disc"      -> AppDisc(op[2], base)
     [] op[1] = "Ref"       -> AppRef(op[2], base)
@@ -18,6 +18,8 @@ OpAct(op, base) ==
     [] op[1] = "IterFirst" -> AppIterFirst(base)
     [] op[1] = "IterNext"  -> AppIterNext(base)
     [] op[1] = "Rate"      -> AppRate(base)
+    [] op[1] = "SvcRef"    -> AppSvcRef(base)
+    [] op[1] = "SvcUnref"  -> AppSvcUnref(base)
 
 (* a library step that enters a callback is recorded with the callback's kind, connection and return value *)
 CbLbl == IF Len(ex') = Len(ex) + 1 /\ ex'[Len(ex')].p = "cb"
